@@ -976,7 +976,7 @@ MUTANTS = [
     _m("matmul-aliases-operand", "            slicer = x.copy()\n", "            slicer = x\n", "R1"),
     _m("rmul-mutates-self", "        slicer = self.copy()\n        slicer._pending_operand = other\n        slicer._pending_operation = \"*\"\n",
        "        slicer = self\n        slicer._pending_operand = other\n        slicer._pending_operation = \"*\"\n", "R1"),
-    _m("copy-forgets-is-onto", "        slicer._is_onto = self._is_onto\n", "", "R2", control=True),
+    _m("copy-forgets-is-onto", "        slicer._is_onto = self._is_onto\n", "", "R2"),
     _m("copy-forgets-pending-operand", "        slicer._pending_operand = self._pending_operand\n", "", "R2"),
     _m("copy-drops-range-size", "            range_size=self._range_size,\n            domain_size=self._domain_size,\n        )\n        slicer._is_onto",
        "            domain_size=self._domain_size,\n        )\n        slicer._is_onto", "R2"),
